@@ -237,6 +237,19 @@ template <class Mesh> RunResult frozen_execute_T(const Plan &plan) {
     HistRun<Mesh> *run = new HistRun<Mesh>(plan, res.st);
     run->keep_alive = true;
     RunResult built = run->run();
+    if (!built.violation && !built.inconclusive && plan.c("final_bu_toggle", 0)) {
+        // what every file reader and StatusAttrib::garbage_collection do last: incidences off, then on. Work a lazy implementation defers
+        // from here would land inside the first const query of the frozen phase.
+        Mesh &mm = *run->reps[run->cur]->mesh;
+        long mask = plan.c("final_bu_toggle", 0);
+        if (mask & 1) mm.enable_vertex_bottom_up_incidences(false);
+        if (mask & 2) mm.enable_edge_bottom_up_incidences(false);
+        if (mask & 4) mm.enable_face_bottom_up_incidences(false);
+        if (mask & 1) mm.enable_vertex_bottom_up_incidences(true);
+        if (mask & 4) mm.enable_face_bottom_up_incidences(true);
+        if (mask & 2) mm.enable_edge_bottom_up_incidences(true);
+        res.st.add("probe_frozen_after_incidence_toggle");
+    }
     g_arena_on = false;
     if (built.violation || built.inconclusive) { res.inconclusive = true; res.detail = "build phase: " + built.cls + " " + built.detail; res.loghash = built.loghash; delete run; return res; }
     Rep<Mesh> &rep = *run->reps[run->cur];
@@ -303,6 +316,7 @@ struct FrozenWorld : World {
         p.cfg["readers"] = (long)r.below(15); p.cfg["programs"] = (long)r.below(6);
         p.cfg["reader_seed"] = (long)r.below(1u << 30); p.cfg["sched_seed"] = (long)r.below(1u << 30);
         p.cfg["battery_every"] = 1000000;
+        p.cfg["final_bu_toggle"] = r.chance(0.45) ? 1 + (long)r.below(7) : 0;   // mask of incidence kinds switched off and on again just before freezing
         return p;
     }
     static RunResult dispatch(const Plan &p) {
